@@ -2,7 +2,10 @@
 """Generates /verif/MANIFEST.json from units.json (claimed checks) and properties.jsonl."""
 import json, os, subprocess
 ROOT = os.path.dirname(os.path.dirname(os.path.abspath(__file__)))
-units = json.load(open(os.path.join(ROOT, "units.json")))
+import glob
+units = {}
+for _f in sorted(glob.glob(os.path.join(ROOT, "harness", "*", "unit.json"))):
+    units.update(json.load(open(_f)))
 props = [json.loads(l) for l in open(os.path.join(ROOT, "properties.jsonl"))]
 hooks_commits = []
 hc = os.path.join(ROOT, "hooks_commits.txt")
